@@ -80,6 +80,32 @@ def main():
         "mvp1_nosub": lambda: (m.mvp_block_order(1, "ph", "ph,ph", "ia",
                                                  False), "ia"),
     })
+    def fac(names):
+        # an expression containing the pattern of the first-order RE doubles
+        # residual next to t-amplitudes: what is factored must depend on the
+        # requested types only, not on earlier requests
+        from adcgen.func import import_from_sympy_latex
+        from adcgen.factor_intermediates import factor_intermediates
+        text = (
+            r"\frac{\delta_{i j} {V^{kl}_{bc}} {t1^{ac}_{kl}}}{2}"
+            r" - \delta_{i j} {V^{kd}_{lb}} {t1^{ac}_{km}} {t1^{cd}_{lm}}"
+            r" - \delta_{i j} {V^{kd}_{mc}} {t1^{ac}_{kl}} {t1^{bd}_{lm}}"
+            r" - \delta_{i j} {f^{k}_{m}} {t1^{ac}_{kl}} {t1^{bc}_{lm}}"
+            r" - \frac{\delta_{i j} {f^{c}_{d}} {t1^{ac}_{kl}} {t1^{bd}_{kl}}}{2}"
+            r" - \frac{\delta_{i j} {V^{bc}_{de}} {t1^{ac}_{kl}} {t1^{de}_{kl}}}{4}"
+            r" + \frac{\delta_{i j} {f^{b}_{d}} {t1^{ac}_{kl}} {t1^{cd}_{kl}}}{4}"
+            r" - \frac{\delta_{i j} {V^{kl}_{mn}} {t1^{ac}_{kl}} {t1^{bc}_{mn}}}{4}")
+        x = import_from_sympy_latex(text, convert_default_names=True)
+        x.make_real()
+        x.set_target_idx("ijab")
+        return factor_intermediates(x, types_or_names=names).sympy
+
+    MENU.update({
+        "facB": lambda: (fac("t_amplitude"), "ijab"),
+        "facA": lambda: (fac(["t_amplitude", "re_residual"]), "ijab"),
+        "facC": lambda: (fac(["mp_density", "t_amplitude"]), "ijab"),
+        "facD": lambda: (fac("re_residual"), "ijab"),
+    })
     MENU.update({
         "p0_2_exp": lambda: (Expr(density_expr(2), real=True)
                              .expand_intermediates().sympy, ""),
